@@ -92,6 +92,25 @@ def impl_run(case):
             out["sd_ok"] = math.isclose(float(sd) ** 2, float(v), rel_tol=1e-9, abs_tol=1e-9)
         except ValueError:
             out["sd_ok"] = float(v) < 0 and float(v) > -1e-6   # sqrt of a rounding-negative variance
+        # the answers do not depend on what was asked of the object before: format() (which passes a float mean to
+        # stdev), variance/stdev with an explicit - even wrong - mu, distribution(), then the plain questions again
+        h2 = _mk(case["h"], case["typ"], case.get("form", "map"))
+        try:
+            h2.format(), h2.format(width=0)
+        except ValueError:
+            # outside this property: format() passes float(mean) to stdev(), whose variance can round below zero
+            # (H({Fraction(-5, 3): 1}).format() raises "math domain error" on the unchanged tree; see DESIGN 12.2)
+            pass
+        list(h2.distribution()), h2.distribution_xy()
+        h3 = _mk(case["h"], case["typ"], case.get("form", "map"))
+        try:
+            h3.variance(m + 1), h3.stdev(float(m) + 0.5), h3.variance(float(m))
+        except (ValueError, OverflowError):
+            pass
+
+        def same_exact(a, b):
+            return type(a) is type(b) and (a == b or (a != a and b != b))
+        out["history_ok"] = all(same_exact(x.mean(), m) and same_exact(x.variance(), v) for x in (h2, h3))
         # invariances (float paths compared approximately)
         hs = H({o: c * case["scale"] for o, c in h.items()})
         hp = h.zero_fill([gens.py_outcome(o) for o in case["pad"]])
@@ -169,7 +188,7 @@ def agree(case, r, o):
             return False
     elif abs(v - ov) > (abs(ov) + om ** 2 + 1) / 2 ** 36:
         return False
-    return r["sd_ok"] and r["scale_ok"] and r["pad_ok"] and r["add_ok"]
+    return r["sd_ok"] and r["scale_ok"] and r["pad_ok"] and r["add_ok"] and r.get("history_ok", True)
 
 
 def nontrivial(case, r):
